@@ -83,24 +83,36 @@ theorem descLines (cfg : Cfg) (ls : List Bytes) (w : W) (h : w.lineHead = true) 
     refine ⟨?_, this.2.1, by rw [this.2.2, c]⟩
     rw [this.1, a, c]; simp
 
-/-- The text `writeDescription` writes: optional lead, `"""`, the body, `"""`, newline. -/
-theorem writeDescription_text (cfg : Cfg) (d : Bytes) (w : W) (hd : d ≠ []) (ho : cfg.omitDescription = false) :
+/-- The text `writeDescription` writes for a description the block form can represent:
+    optional lead, `"""`, the body (with `"""` escaped), `"""`, newline. -/
+theorem writeDescription_text (cfg : Cfg) (d : Bytes) (w : W) (hd : d ≠ []) (ho : cfg.omitDescription = false)
+    (hrep : blockStringRepresentable d = true) :
     (writeDescription cfg d w).text =
-      w.text ++ lead cfg w ++ tripleQuote ++ descBody (repeatBytes cfg.indent w.indentSize) d
+      w.text ++ lead cfg w ++ tripleQuote ++ descBody (repeatBytes cfg.indent w.indentSize) (escapeTriple d)
         ++ tripleQuote ++ [10] := by
   have hd' : d.isEmpty = false := by cases d <;> simp at hd ⊢
   unfold writeDescription
-  simp only [hd', ho, Bool.or_false, Bool.false_eq_true, if_false]
+  simp only [hd', ho, hrep, Bool.or_false, Bool.false_eq_true, if_false, Bool.not_true]
   have s1 := writeStr_text cfg tripleQuote w
   have t1 := writeStr_state cfg tripleQuote w
   have s2 := writeNewline_text (writeStr cfg tripleQuote w)
   have t2 := writeNewline_state (writeStr cfg tripleQuote w)
-  have L := descLines cfg (splitLines d) (writeNewline (writeStr cfg tripleQuote w)) t2.1
+  have L := descLines cfg (splitLines (escapeTriple d)) (writeNewline (writeStr cfg tripleQuote w)) t2.1
   simp only at L
   obtain ⟨L1, L2, L3⟩ := L
   have i1 : (writeNewline (writeStr cfg tripleQuote w)).indentSize = w.indentSize := by rw [t2.2.2, t1.2.2]
   rw [writeNewline_text, writeStr_text, L1, s2, s1]
   simp [lead, L2, L3, i1, descBody]
+
+/-- The text written for a description the block form cannot represent: a quoted string. -/
+theorem writeDescription_text_quoted (cfg : Cfg) (d : Bytes) (w : W) (hd : d ≠ []) (ho : cfg.omitDescription = false)
+    (hrep : blockStringRepresentable d = false) :
+    (writeDescription cfg d w).text = w.text ++ lead cfg w ++ gqlQuote d ++ [10] := by
+  have hd' : d.isEmpty = false := by cases d <;> simp at hd ⊢
+  unfold writeDescription
+  simp only [hd', ho, hrep, Bool.or_false, Bool.false_eq_true, if_false, Bool.not_false, if_true]
+  rw [writeNewline_text, writeStr_text]
+  rfl
 
 /- ---------- block string value of the body ---------- -/
 
